@@ -102,6 +102,10 @@ def run_unit(scratch, unit: str, prop: str | None):
     if vr.get("encountered-vir-error") or ("verification-results" not in js):
         msgs = "\n".join(d.get("rendered", "") for d in diags if d.get("level") == "error")
         raise Undecided(f"verus rejected unit {unit} (unsupported construct or extraction problem):\n{msgs[-4000:]}")
+    hard = [d for d in diags if d.get("level") == "error" and not d.get("spans")]
+    if vr.get("encountered-error") and not vr.get("verified") and not vr.get("errors"):
+        msgs = "\n".join(d.get("rendered", "") for d in diags if d.get("level") == "error")
+        raise Undecided(f"verus rejected unit {unit}:\n{msgs[-4000:]}")
     breakdown = []
     try:
         for m in js["times-ms"]["smt"]["smt-run-module-times"]:
